@@ -297,9 +297,12 @@ def reverse (g : Glyph) (ci : Nat) : Glyph × Res :=
   match g.contours[ci]? with
   | none => (g, .err .index)
   | some c =>
-    if drawOk (c.pts.map (·.typ)) = false then (g, .err .pen)       -- `self.clockwise` draws the contour
+    let new := revPts c.pts
+    -- `reverse` reads `self.clockwise` before and after: a contour fontTools cannot draw raises
+    -- PenError there (unless the area is cached).  Such contours are outside the domain: the
+    -- harness probes drawability with fontTools and does not call `reverse` on them.
+    if drawOk (c.pts.map (·.typ)) = false ∨ drawOk (new.map (·.typ)) = false then (g, .err .pen)
     else
-      let new := revPts c.pts
       let kept := new.map (·.id)
       ({ setPts g ci c new with reg := c.pts.foldl (discardUnlessKept kept) g.reg }, .ok)
 
